@@ -8,6 +8,10 @@ import (
 var cmdWords = []string{"foo", "bar", "Lunch", "#tag", "#Work", "#a=1", "#p=\"x y\"", "über", "日本", "1h", "8:00 - 9:00", "-", "a  b", "(x)", "it's", "100%", "#tag=v", "é", "\\n", "$HOME"}
 
 func cmdText(t *rapid.T, label string) string {
+	if rapid.IntRange(0, 9).Draw(t, label+"Tiny") == 0 {
+		// one- and two-byte texts: boundary of "is there anything on the line yet" logic
+		return rapid.SampledFrom([]string{"a", "x", "-", "?", "#", "1", "é", "ab", "#a", "a.", "日"}).Draw(t, label+"TinyW")
+	}
 	n := rapid.IntRange(1, 3).Draw(t, label+"N")
 	s := ""
 	for i := 0; i < n; i++ {
